@@ -19,6 +19,7 @@ structure Closed (Inv : Node → Prop) : Prop where
   fsm : ∀ (s : Node) f, Inv s → Inv (s.withFsm f)
   changeConfigR : ∀ (s : Node) c, Inv s → Inv (s.changeConfigR c)
   setCommitIndexR : ∀ (s : Node) i, Inv s → Inv (s.setCommitIndexR i).1
+  popOrder : ∀ (s : Node), Inv s → Inv s.popOrder
 
 namespace Closed
 
@@ -61,10 +62,11 @@ theorem fsmApplyLogTo_inv (s : Node) (n : Nat) (hs : Inv s) : Inv (s.fsmApplyLog
   · exact hs
   · split
     · exact h.panic _ _ hs
-    · dsimp only
+    · extract_lets es ups lastTerm cfg s1
+      have h1 : Inv s1 := by unfold s1; split; exact h.panic _ _ hs; exact hs
       split
       · exact h.panic _ _ hs
-      · exact h.fsm _ _ hs
+      · exact h.fsm _ _ h1
 
 theorem fsmApplyItems_inv (s : Node) (qs : List QItem) (hs : Inv s) : Inv (s.fsmApplyItems qs) := by
   induction qs generalizing s with
@@ -74,8 +76,13 @@ theorem fsmApplyItems_inv (s : Node) (qs : List QItem) (hs : Inv s) : Inv (s.fsm
     dsimp only
     apply ih
     apply h.reply
-    have h1 := h.assert_inv s (q.index == s.fsm.index + 1) "fsm.assertNext" hs
-    split <;> split <;> first | exact h.fsm _ _ (h.fsm _ _ h1) | exact h.fsm _ _ h1 | exact h1
+    have h1 : Inv (s.assert (q.index == s.fsm.index + 1) "fsm.assertNext") := h.assert_inv s _ _ hs
+    repeat' split
+    all_goals first
+      | exact h.fsm _ _ (h.fsm _ _ (h.fsm _ _ h1))
+      | exact h.fsm _ _ (h.fsm _ _ h1)
+      | exact h.fsm _ _ h1
+      | exact h1
 
 theorem fsmApply_inv (s : Node) (qs : List QItem) (hs : Inv s) : Inv (s.fsmApply qs) := by
   unfold Node.fsmApply
@@ -174,7 +181,8 @@ theorem block : ∀ fuel : Nat,
         split
         · exact ihCA _ _ _ _ hs
         · exact hs
-      · split
+      · apply h.popOrder
+        split
         · split
           · exact ihDC _ _ _ hs
           · split
@@ -189,13 +197,18 @@ theorem block : ∀ fuel : Nat,
       all_goals first | exact hs | exact h1 _ | exact ihDC _ _ _ (h1 _)
     · -- setCommitIndexL
       intro s i hs
-      unfold setCommitIndexL; dsimp only
-      have h1 := h.setCommitIndexR _ i (h.commitLog_inv _ i hs)
+      unfold setCommitIndexL
+      extract_lets s1 ready r s2 s3
+      have h2 : Inv s2 := h.setCommitIndexR _ i (h.commitLog_inv _ i hs)
+      have h3 : Inv s3 := by
+        unfold s3; split
+        · exact ihCAs _ _ _ h2
+        · exact h2
       split
       · split
-        · exact h.ldr _ _ (foldl_inv _ (fun s t hs => h.reply _ _ _ hs) _ _ h1)
-        · exact ihCAs _ _ _ h1
-      · exact h1
+        · exact h.ldr _ _ (foldl_inv _ (fun s t hs => h.reply _ _ _ hs) _ _ h3)
+        · exact ihCAs _ _ _ h3
+      · exact h3
     · -- onMajorityCommit
       intro s hs
       unfold onMajorityCommit; dsimp only
